@@ -1,0 +1,272 @@
+//! Verification hooks (compiled only with `--cfg amiquip_verif`).
+//!
+//! Nothing in here changes the behaviour of the library unless a [`Controller`] has been
+//! installed with [`install`]: every hook is a no-op without one. With a controller
+//! installed, the hooks report (and may park the calling thread at) the places where
+//! amiquip's threads meet: channel sends and receives, the I/O thread's poll, thread
+//! spawn/join.
+#![allow(missing_docs, dead_code, clippy::all)]
+
+use std::sync::atomic::{AtomicU64, Ordering};
+use std::sync::{Arc, RwLock};
+
+pub mod clock;
+pub mod timer;
+
+/// Which of the (up to three) mio channels of a slot a message travels on.
+#[derive(Clone, Copy, Debug, PartialEq, Eq, Hash)]
+pub enum ChanKind {
+    /// The slot's `IoLoopMessage` queue.
+    Main,
+    /// Channel 0's channel-allocation request queue.
+    Alloc,
+    /// Channel 0's set-blocked-listener queue.
+    Blocked,
+}
+
+/// Identifies one client -> I/O thread queue of one slot incarnation.
+#[derive(Clone, Copy, Debug, PartialEq, Eq, Hash)]
+pub struct ChanTag {
+    /// Unique per `ChannelSlot` created since the last `install`.
+    pub serial: u64,
+    /// AMQP channel id of the slot.
+    pub channel_id: u16,
+    pub kind: ChanKind,
+}
+
+/// What a client is about to block on.
+#[derive(Clone, Copy, Debug, PartialEq, Eq, Hash)]
+pub enum RecvKind {
+    /// Reply queue of a channel (serial, channel id).
+    Reply(u64, u16),
+    /// Reply to a channel allocation request.
+    AllocReply,
+    /// `handshake_done` in `IoLoop::start`.
+    HandshakeDone,
+}
+
+/// A message the I/O thread took from one of its queues.
+#[derive(Clone, Copy, Debug, PartialEq, Eq, Hash)]
+pub enum MsgKind {
+    Send { len: usize },
+    ConnectionClose { len: usize },
+    SetReturnHandler { some: bool },
+    SetPubConfirmHandler { some: bool },
+    Alloc { requested: Option<u16> },
+    SetBlocked,
+}
+
+/// Where a message from the I/O thread to a client goes.
+#[derive(Clone, Copy, Debug, PartialEq, Eq, Hash)]
+pub enum ToClient {
+    /// `connection_state::send` (reply queues, consumer queues).
+    Send,
+    Return,
+    Confirm,
+    Blocked,
+}
+
+pub enum Point<'a> {
+    /// Client thread, immediately before the I/O thread is spawned.
+    IoSpawn,
+    /// I/O thread, first statement of `thread_main`.
+    IoStart,
+    /// I/O thread, before `poll`. The controller may park the thread here.
+    IoGate {
+        outbuf_len: usize,
+        sealed: bool,
+        n_slots: usize,
+    },
+    /// I/O thread, after `poll` returned `n_events` events.
+    IoPolled { n_events: usize },
+    /// I/O thread took a message from a client queue.
+    IoRecv { chan: ChanTag, msg: MsgKind },
+    /// I/O thread is about to act on a frame in steady state.
+    IoFrame(&'a amq_protocol::frame::AMQPFrame),
+    /// I/O thread is about to send something to a client queue.
+    IoToClient(ToClient),
+    /// I/O thread leaves `thread_main` (locals dropped, parameters not yet).
+    IoExit { panicking: bool },
+    /// I/O thread is gone: everything it owned has been dropped.
+    IoGone,
+    /// A channel slot (and its queues) was created by the I/O thread or in `start`.
+    SlotNew { serial: u64, channel_id: u16, bound: usize },
+    /// A channel slot was dropped (its queues are disconnected from now on).
+    SlotDropped { serial: u64, channel_id: u16 },
+    /// Client thread is about to send on `chan`; the controller parks it until the queue
+    /// has room so that the real send never blocks.
+    BeforeSend { chan: ChanTag },
+    /// Client thread is about to block receiving; parked until `ready()` is true.
+    BeforeRecv {
+        what: RecvKind,
+        ready: &'a (dyn Fn() -> bool + Sync),
+    },
+    /// Client thread is about to join the I/O thread.
+    BeforeJoin,
+}
+
+pub trait Controller: Send + Sync {
+    fn point(&self, p: Point<'_>);
+}
+
+static CONTROLLER: RwLock<Option<Arc<dyn Controller>>> = RwLock::new(None);
+static NEXT_SERIAL: AtomicU64 = AtomicU64::new(1);
+
+/// Install (or remove) the process-global controller. Resets slot serial numbers.
+pub fn install(c: Option<Arc<dyn Controller>>) {
+    NEXT_SERIAL.store(1, Ordering::SeqCst);
+    *CONTROLLER.write().unwrap_or_else(|e| e.into_inner()) = c;
+}
+
+fn controller() -> Option<Arc<dyn Controller>> {
+    CONTROLLER
+        .read()
+        .unwrap_or_else(|e| e.into_inner())
+        .as_ref()
+        .cloned()
+}
+
+#[inline]
+pub fn active() -> bool {
+    CONTROLLER
+        .read()
+        .unwrap_or_else(|e| e.into_inner())
+        .is_some()
+}
+
+#[inline]
+pub(crate) fn point(p: Point<'_>) {
+    if let Some(c) = controller() {
+        c.point(p);
+    }
+}
+
+pub(crate) fn next_serial() -> u64 {
+    NEXT_SERIAL.fetch_add(1, Ordering::SeqCst)
+}
+
+/// Park (under a controller) until a `recv()` on `rx` would not block.
+pub(crate) fn before_recv<T: Send>(rx: &crossbeam_channel::Receiver<T>, what: RecvKind) {
+    if let Some(c) = controller() {
+        let ready = || recv_ready(rx);
+        c.point(Point::BeforeRecv {
+            what,
+            ready: &ready,
+        });
+    }
+}
+
+/// True if `rx.recv()` would return immediately. Only meaningful while no other thread
+/// can touch the channel (the controller runs one thread at a time).
+pub fn recv_ready<T>(rx: &crossbeam_channel::Receiver<T>) -> bool {
+    if !rx.is_empty() {
+        return true;
+    }
+    match rx.try_recv() {
+        Err(crossbeam_channel::TryRecvError::Disconnected) => true,
+        Err(crossbeam_channel::TryRecvError::Empty) => false,
+        Ok(_) => panic!("amiquip_verif: message appeared during a readiness probe"),
+    }
+}
+
+/// Lives in every `ChannelSlot`; reports creation and drop of the slot's queues.
+pub(crate) struct SlotGuard {
+    pub(crate) serial: u64,
+    pub(crate) channel_id: u16,
+}
+
+impl SlotGuard {
+    pub(crate) fn new(channel_id: u16, bound: usize) -> SlotGuard {
+        let serial = next_serial();
+        point(Point::SlotNew {
+            serial,
+            channel_id,
+            bound,
+        });
+        SlotGuard { serial, channel_id }
+    }
+
+    pub(crate) fn tag(&self, kind: ChanKind) -> ChanTag {
+        ChanTag {
+            serial: self.serial,
+            channel_id: self.channel_id,
+            kind,
+        }
+    }
+}
+
+impl Drop for SlotGuard {
+    fn drop(&mut self) {
+        point(Point::SlotDropped {
+            serial: self.serial,
+            channel_id: self.channel_id,
+        });
+    }
+}
+
+/// Local of `thread_main`: reports the end of the I/O thread.
+pub(crate) struct IoGuard;
+
+struct IoGoneNotifier;
+
+impl Drop for IoGoneNotifier {
+    fn drop(&mut self) {
+        point(Point::IoGone);
+    }
+}
+
+thread_local! {
+    static IO_GONE: std::cell::RefCell<Option<IoGoneNotifier>> = std::cell::RefCell::new(None);
+}
+
+impl IoGuard {
+    pub(crate) fn new() -> IoGuard {
+        // The thread-local's destructor runs after the thread's closure has returned,
+        // i.e. after every parameter of thread_main has been dropped.
+        IO_GONE.with(|g| *g.borrow_mut() = Some(IoGoneNotifier));
+        point(Point::IoStart);
+        IoGuard
+    }
+}
+
+impl Drop for IoGuard {
+    fn drop(&mut self) {
+        point(Point::IoExit {
+            panicking: std::thread::panicking(),
+        });
+    }
+}
+
+/// Called before `poll`: reports the gate and, under a controller, makes the poll
+/// non-blocking (the controller decides when the thread runs, so waiting happens at the
+/// gate). Returns the saved timeout for `io_gate_restore`.
+pub(crate) fn io_gate(
+    timeout: &mut Option<std::time::Duration>,
+    outbuf_len: usize,
+    sealed: bool,
+    n_slots: usize,
+) -> Option<Option<std::time::Duration>> {
+    if let Some(c) = controller() {
+        c.point(Point::IoGate {
+            outbuf_len,
+            sealed,
+            n_slots,
+        });
+        let saved = *timeout;
+        *timeout = Some(std::time::Duration::from_millis(0));
+        Some(saved)
+    } else {
+        None
+    }
+}
+
+pub(crate) fn io_gate_restore(
+    timeout: &mut Option<std::time::Duration>,
+    saved: Option<Option<std::time::Duration>>,
+    n_events: usize,
+) {
+    if let Some(saved) = saved {
+        *timeout = saved;
+        point(Point::IoPolled { n_events });
+    }
+}
